@@ -158,3 +158,12 @@ class MWorld:
         rec['opened'] = opened
         self.recs.append(rec)
         return rec
+
+    def close(self, tag):
+        """the connection behind `tag` is gone (libwayland destroyed it): the next message carrying the tag opens a new one,
+        with the next name and an empty table; the closed one stays known under a key of its own"""
+        c = self.conns.pop(tag, None)
+        if c is not None:
+            c.open = False
+            self.conns['%s (closed %s)' % (tag, c.name)] = c
+        return c
